@@ -85,6 +85,17 @@ def evaluate(spec):
     Deterministic function of (spec, tree)."""
     prop = spec["property"]
     if prop == "C12":
+        for op in spec["actors"][0]["ops"]:
+            f = op.get("fault")
+            if f and f.get("at_fraction") is not None:
+                # dense sweep: abort at the (i/Q)-th part of this operation's own line events
+                qi, q = f.pop("at_fraction")
+                clean = {k: v for k, v in op.items() if k not in ("fault", "mut")}
+                mspec = {"property": "C12", "mode": "line", "check_fresh": False, "policy": {"kind": "rtc"},
+                         "actors": [{"reuse": False, "ops": [clean]}], "probes": False}
+                m = baseline("nline:" + c12.op_key(op), mspec)
+                n = max(1, int(m["actors"][0][0].get("nline") or 1))
+                f["at"] = 1 + (int(qi) * n) // int(q)
         result = run_spec(spec)
         ops = spec["actors"][0]["ops"]
         bl = []
